@@ -295,3 +295,6 @@ func toNativeSimple(v Value) (any, bool) {
 
 var _ = big.NewInt
 var _ = strings.Contains
+
+// ErrorValue returns an opaque non-nil error value (for harness hooks).
+func (p *Program) ErrorValue(msg string) Value { return p.mkErr(msg) }
